@@ -672,6 +672,50 @@ def _elf_header_guards(sizeofs, out, src):
                % "; ".join("(%d, %d, %d, %d, %d, %d, %d)" % r[:7] for r in rows))
     src["elf_header_branches"] = [r[7] for r in rows]
 
+# ------------------------------------------------------------------ object.c: growth of the dictionary storage
+def _int_term(e, env, what):
+    """+ - * over int variables and literals, as unbounded integers (the theorem states the range in which C's int does not overflow)"""
+    k = e[0]
+    if k == "num":
+        return "%d" % e[1]
+    sp = cexpr.spelling(e)
+    if sp is not None and sp in env:
+        return env[sp]
+    if k == "bin" and e[1] in ("+", "-", "*"):
+        return "(%s %s %s)" % (_int_term(e[2], env, what), e[1], _int_term(e[3], env, what))
+    raise GenError("translator cannot parse %s: expression %r" % (what, e))
+
+
+def _dict_growth(out, src):
+    what = "yr_object_dict_set_item (object.c)"
+    _, body, _ = function_def(_read("libyara/object.c"), "yr_object_dict_set_item", what)
+    b = strip_comments(body)
+    m0 = re.search(r"if\s*\(\s*dict->items\s*==\s*NULL\s*\)\s*\{\s*count\s*=\s*([^;]+);(.*?)\}\s*else\s+if\s*\(\s*dict->items->free\s*==\s*0\s*\)\s*\{\s*count\s*=\s*([^;]+);(.*?)\n  \}", b, re.S)
+    if not m0:
+        raise GenError("translator cannot parse %s: expected `if (dict->items == NULL) { count = ..; .. } else if (dict->items->free == 0) { count = ..; .. }`" % what)
+    init_body, grow_body = m0.group(2), m0.group(4)
+    if not re.search(r"dict->items->free\s*=\s*count\s*;\s*dict->items->used\s*=\s*0\s*;", init_body):
+        raise GenError("translator cannot parse %s: the first allocation no longer sets free = count; used = 0" % what)
+    fm = re.findall(r"dict->items->free\s*=\s*([^;]+);", grow_body)
+    if len(fm) != 1 or re.search(r"dict->items->used\s*=[^=]", grow_body):
+        raise GenError("translator cannot parse %s: the growth branch must assign free once and leave used alone" % what)
+    for cnt in (m0.group(1), m0.group(3)):
+        pass
+    if not re.search(r"count\s*\*\s*sizeof\s*\(\s*dict->items->objects\[0\]\s*\)", init_body) or \
+       not re.search(r"count\s*\*\s*sizeof\s*\(\s*dict->items->objects\[0\]\s*\)", grow_body):
+        raise GenError("translator cannot parse %s: the block is no longer sized `count * sizeof(objects[0])`" % what)
+    tail = b[m0.end():]
+    if not re.search(r"dict->items->objects\[dict->items->used\]\.obj\s*=\s*item\s*;\s*dict->items->used\+\+\s*;\s*dict->items->free--\s*;", tail):
+        raise GenError("translator cannot parse %s: an insertion no longer writes objects[used] and then does used++, free--" % what)
+    env = {"dict->items->used": "used", "dict->items->free": "free", "count": "count"}
+    out.append("\n(* ---- object.c yr_object_dict_set_item: capacity of the block and the free counter\n"
+               "   first insertion: count = %s; free = count; used = 0\n   full (free == 0): count = %s; free = %s\n"
+               "   every insertion: objects[used] = item; used++; free-- *)\n" % (m0.group(1).strip(), m0.group(3).strip(), fm[0].strip()))
+    out.append("Definition dict_initial_count : Z := %s.\n" % _int_term(parse_expr(m0.group(1), what), {}, what))
+    out.append("Definition dict_grow (used : Z) : Z := %s.\n" % _int_term(parse_expr(m0.group(3), what), env, what))
+    out.append("Definition dict_free_after_grow (used count : Z) : Z := %s.\n" % _int_term(parse_expr(fm[0], what), env, what))
+    src["dict_growth"] = [m0.group(1).strip(), m0.group(3).strip(), fm[0].strip()]
+
 
 def translate():
     """returns (text of GenBounds.v, dict of translated source texts for the harness tie)"""
@@ -835,6 +879,7 @@ def translate():
     _export_tables(sizeofs, consts, out, src)
     _dotnet_depth(out, src)
     _elf_header_guards(sizeofs, out, src)
+    _dict_growth(out, src)
     src["constants"] = K
     return "".join(out), src
 
